@@ -70,6 +70,10 @@ def run_harness(name, timeout=900, mem_gb=24, stubbing=False, slot=0):
         # the back end gave up (memory / internal error) or reported no failed check at all: undecided, never a violation
         res['verdict'] = 'ERROR'
         res['note'] = 'back end failure without a failed check (memory / internal error)'
+    if res['verdict'] == 'FAILED' and res['failed_checks'] and all('unwinding assertion' in c for c in res['failed_checks']):
+        # the unwinding bound of the harness is too small for its own loops: a harness problem, never a violation
+        res['verdict'] = 'ERROR'
+        res['note'] = 'unwinding assertion failed (harness bound too small)'
     res['tail'] = out[-1500:]
     return res
 
